@@ -31,7 +31,7 @@ fn rand_vfunc(t: &mut Tape, name: String) -> Func {
     let mut args = vec![if t.chance(1, 2) { Arg::ConstSelf } else { Arg::MutSelf }];
     let n = t.below(4);
     for k in 0..n {
-        let ty = if t.chance(1, 4) { Ty::n(*t.pick(INTS)).cptr() } else { Ty::n(*t.pick(INTS)) };
+        let ty = rand_sig_ty(t);
         args.push(Arg::Named(format!("p{k}"), ty));
     }
     Func {
@@ -40,10 +40,65 @@ fn rand_vfunc(t: &mut Tape, name: String) -> Func {
         name,
         doc: vec![],
         args,
-        ret: if t.chance(1, 2) { Some(Ty::n(*t.pick(INTS))) } else { None },
+        ret: if t.chance(1, 2) { Some(if t.chance(1, 3) { rand_sig_ty(t) } else { Ty::n(*t.pick(INTS)) }) } else { None },
         addr: None,
         index: None,
         cc: if t.chance(1, 3) { Some(t.pick(CCS).to_string()) } else { None },
+    }
+}
+
+/// a parameter / return type: integers, pointers of both kinds (also to the root type and two levels
+/// deep), small arrays
+fn rand_sig_ty(t: &mut Tape) -> Ty {
+    let int = Ty::n(*t.pick(INTS));
+    match t.below(10) {
+        0..=3 => int,
+        4 => int.cptr(),
+        5 => int.mptr(),
+        6 => int.arr(1 + t.below(4)),
+        7 => {
+            if t.chance(1, 2) {
+                Ty::n("L0").cptr()
+            } else {
+                Ty::n("L0").mptr()
+            }
+        }
+        8 => int.cptr().mptr(),
+        _ => int.arr(2).cptr(),
+    }
+}
+
+/// a type that differs from `ty` in exactly one place: the leaf, the kind of one pointer level, one
+/// array length, or one level of indirection more or less
+fn mutate_sig_ty(t: &mut Tape, ty: &Ty) -> Ty {
+    match ty {
+        Ty::Named(n) => {
+            if n == "L0" {
+                Ty::n("Side")
+            } else if t.chance(1, 6) {
+                ty.clone().cptr()
+            } else {
+                Ty::Named(other_int(t, n))
+            }
+        }
+        Ty::CPtr(e) => match t.below(3) {
+            0 => Ty::MPtr(e.clone()),
+            1 => Ty::CPtr(Box::new(mutate_sig_ty(t, e))),
+            _ => (**e).clone(),
+        },
+        Ty::MPtr(e) => match t.below(3) {
+            0 => Ty::CPtr(e.clone()),
+            1 => Ty::MPtr(Box::new(mutate_sig_ty(t, e))),
+            _ => (**e).clone(),
+        },
+        Ty::Arr(e, n) => {
+            if t.chance(1, 2) {
+                Ty::Arr(e.clone(), n + 1)
+            } else {
+                Ty::Arr(Box::new(mutate_sig_ty(t, e)), *n)
+            }
+        }
+        other => other.clone(),
     }
 }
 
@@ -53,6 +108,12 @@ fn other_int(t: &mut Tape, cur: &str) -> String {
 }
 
 pub fn gen_verdict_case(t: &mut Tape) -> VerdictCase {
+    gen_verdict_case_with(t, None)
+}
+
+/// `force`: the mutation choice for the last level (0 none, 2 rename, 3 receiver, 4 parameter, 5 return,
+/// 6 calling convention, 7 missing slot, 8 swap, 9 default convention spelled out) instead of a drawn one
+pub fn gen_verdict_case_with(t: &mut Tape, force: Option<u64>) -> VerdictCase {
     let w = if t.chance(1, 2) { 8 } else { 4 };
     let depth = 1 + t.below(4) as usize; // number of derivation steps
     let mut m = Mod {
@@ -110,7 +171,8 @@ pub fn gen_verdict_case(t: &mut Tape) -> VerdictCase {
         if last {
             // one mutation of the compatible prefix (or none)
             let k = t.below(table.len() as u64) as usize;
-            let choice = t.below(10);
+            let drawn = t.below(10);
+            let choice = force.unwrap_or(drawn);
             let b = own_block.as_mut().unwrap();
             match choice {
                 0 | 1 => {}
@@ -123,12 +185,19 @@ pub fn gen_verdict_case(t: &mut Tape) -> VerdictCase {
                     mutation = format!("receiver of slot {k}");
                 }
                 4 => {
-                    if let Some(Arg::Named(_, ty)) = b[k].args.iter_mut().find(|a| matches!(a, Arg::Named(..))) {
-                        let cur = ty.leaf().unwrap_or("u8").to_string();
-                        let was_ptr = ty.is_ptr();
-                        let n = Ty::Named(other_int(t, &cur));
-                        *ty = if was_ptr { n.cptr() } else { n };
-                        mutation = format!("parameter type of slot {k}");
+                    let named: Vec<usize> = (0..b[k].args.len()).filter(|&i| matches!(b[k].args[i], Arg::Named(..))).collect();
+                    if !named.is_empty() {
+                        // any parameter, not only the first
+                        let ai = named[t.below(named.len() as u64) as usize];
+                        if let Arg::Named(_, ty) = &mut b[k].args[ai] {
+                            let kind = match ty {
+                                Ty::CPtr(_) | Ty::MPtr(_) => "pointer",
+                                Ty::Arr(..) => "array",
+                                _ => "scalar",
+                            };
+                            *ty = mutate_sig_ty(t, ty);
+                            mutation = format!("parameter type of slot {k} ({kind} parameter #{})", ai);
+                        }
                     } else {
                         b[k].args.push(Arg::Named("extra".into(), Ty::n("u8")));
                         mutation = format!("extra parameter on slot {k}");
@@ -139,10 +208,12 @@ pub fn gen_verdict_case(t: &mut Tape) -> VerdictCase {
                         None => b[k].ret = Some(Ty::n("u32")),
                         Some(r) => {
                             let cur = r.leaf().unwrap_or("u8").to_string();
-                            if t.chance(1, 2) {
+                            let _ = cur;
+                            let r2 = r.clone();
+                            if t.chance(1, 3) {
                                 b[k].ret = None
                             } else {
-                                b[k].ret = Some(Ty::Named(other_int(t, &cur)))
+                                b[k].ret = Some(mutate_sig_ty(t, &r2))
                             }
                         }
                     }
@@ -218,7 +289,7 @@ impl Prop for Verdict_ {
         "C06/verdict".into()
     }
     fn rule(&self) -> String {
-        "chains of depth 1-4 over a root with a 1-4 slot table (index gaps, all seven conventions, 0-3 integer/pointer parameters, optional return), optional second base with its own table, intermediate levels extending or inheriting the table; the last level's own block is the compatible prefix (+0-2 new slots) with at most one mutation: renamed slot, receiver flipped, parameter type changed, return type added/removed/changed, calling convention changed to a different effective one, last base slot missing, two differing slots swapped; controls: no mutation, default convention spelled out. Oracle: Ok iff no mutation. Every case is non-trivial (depth >= 2, or >= 2 bases, or a mutation)".into()
+        "chains of depth 1-4 over a root with a 1-4 slot table (index gaps, all seven conventions, 0-3 parameters of integer, *const/*mut (also to the root type, two levels deep, to arrays) and small array types, optional return), optional second base with its own table, intermediate levels extending or inheriting the table; the last level's own block is the compatible prefix (+0-2 new slots) with at most one mutation: renamed slot, receiver flipped, one parameter's type changed in one place (leaf, pointer kind, array length, one level of indirection; any parameter), return type added/removed/changed the same way, calling convention changed to a different effective one, last base slot missing, two differing slots swapped; controls: no mutation, default convention spelled out. Oracle: Ok iff no mutation. Every case is non-trivial (depth >= 2, or >= 2 bases, or a mutation)".into()
     }
     fn gen(&self, t: &mut Tape) -> VerdictCase {
         gen_verdict_case(t)
